@@ -166,7 +166,12 @@ def oracle(ctx, U, LA, D, rng, base):
     A = sp.csr_array(D)
     # diagonals
     for norm_eq, want in ((0, np.diag(D)), (1, (D * D).sum(0)), (2, (D * D).sum(1))):
-        got = U.get_diagonal(sp.csr_array(D), norm_eq=norm_eq, inv=False)
+        try:
+            got = U.get_diagonal(sp.csr_array(D), norm_eq=norm_eq, inv=False)
+            U.get_diagonal(sp.csr_array(D), norm_eq=norm_eq, inv=True)
+        except Exception as e:   # noqa
+            ctx.fail('get_diagonal/norm_eq=%d/raises' % norm_eq, repr(e), base)
+            continue
         if _nn(np.abs(np.ravel(got) - want).max()) > 1e-13 * (1 + np.abs(want).max()):
             ctx.fail('get_diagonal/norm_eq=%d' % norm_eq, 'got %s want %s' % (np.ravel(got), want), base)
         inv = np.ravel(U.get_diagonal(sp.csr_array(D), norm_eq=norm_eq, inv=True))
